@@ -324,7 +324,11 @@ def gen_sentence_raw(rnd, exact_only=False, allow_default_kf=False):
     rp = rnd.random()
     if rp < 0.35:
         n = rnd.choice([1, 2, 3, 7, 1000])
-        parts.append(("rep", f"{n}x", f".repeat(Repeat::Times({n}))"))
+        nt = str(n)
+        if rnd.random() < 0.15:
+            # counts that need all 32 bits (not representable in f32), the largest count, underscored spellings
+            n, nt = rnd.choice([(16777217, "16777217"), (123456789, "123_456_789"), (4294967295, "4294967295"), (33554433, "33_554_433"), (16777216, "16_777_216")])
+        parts.append(("rep", f"{nt}x", f".repeat(Repeat::Times({n}))"))
         feats.append("Nx")
     elif rp < 0.5:
         parts.append(("rep", "infinite", ".repeat(Repeat::Infinite)"))
@@ -567,6 +571,8 @@ sentence with at least one timing word or keyframe; distinct = set of grammar fe
 # animator! blocks
 
 STATES = ["St::A", "St::B", "St::C", "St::D", "St::E"]
+# caller-scope variables every animator! case (and its builder twin) is expanded next to
+PRELUDE = "let (a, b, c, d) = (7.5f32, -3.25f32, 99u8, 41i32);"
 
 
 def c16(tier, seed, rest):
@@ -586,6 +592,13 @@ def c16(tier, seed, rest):
             feats.append("default-state-only")
         elif k < 0.7:
             fs = gen_fields(rnd, allow_empty=False)
+            if rnd.random() < 0.3:
+                # the listed expressions are the caller's: they may mention caller variables, also ones that happen
+                # to be named like fields of the struct (the case closure defines a, b, c, d — see PRELUDE)
+                alt = {"a": ["a + 1.0", "b * 2.0", "a", "f32::from(c)"], "b": ["a", "a - b", "b", "d as f32"],
+                       "c": ["c", "c / 3", "(d as u8) + c"], "d": ["d - 1", "i32::from(c)", "d", "a as i32"]}
+                fs = [(n_, rnd.choice(alt[n_])) for n_, _ in fs]
+                feats.append("default-inline-mentions-caller-variables")
             inline = "{ " + ", ".join(f"{n_}: {v}" for n_, v in fs) + " }"
             assigns = " ".join(f"default_values.{n_} = {v};" for n_, v in fs)
             dflt_m = f"default({st0}, {inline}),"
@@ -650,7 +663,7 @@ def c16(tier, seed, rest):
             "fn make_v(k: i32) -> V { V { a: k as f32 * 2.5, b: 10.0 - k as f32, c: (100 + k) as u8, d: k * 7 } }",
             "fn cases() -> Vec<AnCase<V>> { vec!["]
     for (i, block, twin, sig) in cases:
-        body.append(f"  /*CASE {i}*/ AnCase {{ idx: {i}, block: {rs_str(block)}, twin: {rs_str(twin)}, sig: {rs_str(sig)}, mac: || {block}, bld: || {twin} }},")
+        body.append(f"  /*CASE {i}*/ AnCase {{ idx: {i}, block: {rs_str(block)}, twin: {rs_str(twin)}, sig: {rs_str(sig)}, mac: || {{ {PRELUDE} {block} }}, bld: || {{ {PRELUDE} {twin} }} }},")
     body.append("] }")
     body.append("""
 fn main() {
